@@ -26,7 +26,8 @@ class C07(Prop):
     theorems = ["C07.groups_is_or_of_ands", "C07.eval_op_dispatch", "C07.undefined_comparison_iff", "C07.either_side",
                 "C07.evalAtom_refines", "C07.extra_normalised_both_sides", "C07.extra_spelling_irrelevant",
                 "C07.env_effective", "C07.buildEnv_ok", "C07.evaluate_refines", "C07.pure_of_effective_env",
-                "C07.parse_precedence", "C07.atomSem_normAtom", "C07.marker_evaluate_refines",
+                "C07.parse_precedence", "C07.parse_precedence_char", "C07.atomSem_normAtom", "C07.evaluate_lst",
+                "C07.marker_evaluate_refines", "C07.marker_of_text_refines", "MkLex.lex", "MkLexP.parse_spell_print",
                 "MkParse.parse_print", "MkParse.formulaOf_lst", "MkParse.fOfL_norm"]
     rule = ("random and/or formulas (depth <= 6, flat mixed chains 'a or b and c or d', redundant parentheses to depth 4, "
             "both operand orders, both quote styles, PEP 345 dotted spellings, all ten operators, literals over the PEP 508 "
@@ -37,9 +38,10 @@ class C07(Prop):
                "(Mk.Ext); in the correspondence their answers for the atoms at hand are computed on the real code and passed as data",
                "ast.literal_eval of a QUOTED_STRING token as modelled by Mk.pyStrLit (escape decoding; \\N{...} not modelled)",
                "CPython re: leftmost alternative / backtracking order and \\b as modelled by Mk.matchFin (word table measured)"]
-    partial = ["character-level lexing of arbitrary layouts (white space, quote style, PEP 345 spellings) is tied by the "
-               "correspondence check (mk.eval on rendered layouts, mk.match on rule x position), not proved; the precedence / "
-               "grouping theorem parse_precedence is proved for the same recursive-descent functions run on token sequences",
+    partial = ["character-level lexing is proved for the canonical layout (single spaces, canonical variable names: "
+               "parse_precedence_char, marker_of_text_refines); other layouts (extra white space, no white space, PEP 345 "
+               "spellings) are tied by the correspondence check (mk.eval on rendered layouts, mk.match on rule x position); "
+               "parse_precedence covers every layout at token level",
                "comparisons of two variables or of two literals are outside the statement; the model mirrors what the code does "
                "with them (correspondence only), the refinement theorems assume one variable per comparison",
                "recursion depth: the model's fuel is linear in the input length; CPython's RecursionError on ~330 nested "
